@@ -13,6 +13,7 @@ pluck, partition_indexed, do_action, zip_with_iterable, aggregate key mappers /
 comparers, cold factories under flat_map ...) are run by the ORACLE-ONLY family
 of harness/c09_rest.py (exception injected at the k-th invocation of one chosen
 callback; oracle straight from the property text)."""
+import json
 import random
 
 import k2
@@ -23,7 +24,121 @@ from props import C05, C06
 IMPORTS = "Base.Prelude Base.CaseLib Ops.Machine Ops.Elementwise Ops.Aggregates"
 CALLBACK_OPS = {"map", "map_indexed", "filter", "filter_indexed", "take_while", "take_while_indexed",
                 "skip_while", "skip_while_indexed", "distinct", "distinct_until_changed", "find",
-                "reduce", "scan", "count", "first", "last", "single", "some", "all", "to_dict", "min_max_by"}
+                "reduce", "scan", "count", "first", "last", "single", "some", "all", "to_dict", "min_max_by",
+                # comparers / key mappers drawn from the C06 families (instances without a callback never raise)
+                "contains", "sequence_equal", "min", "max", "sum", "average"}
+
+
+class raising_tables:
+    """callbacks of the C05/C06 tables raise more often while this is active"""
+
+    def __enter__(self):
+        self.old = (k2.rand_pred, k2.rand_map)
+        old_pred, old_map = self.old
+        k2.rand_pred = lambda rng, pool, p_raise=0.4: old_pred(rng, pool, p_raise)
+        k2.rand_map = lambda rng, pool, p_raise=0.33: old_map(rng, pool, p_raise)
+
+    def __exit__(self, *a):
+        k2.rand_pred, k2.rand_map = self.old
+
+
+COLD_KINDS = ("from_iterable", "cold_test_observable")
+
+
+def cold_case(table, name, kind, case_seed):
+    """one callback operator over a cold source on a fresh VirtualTimeScheduler -> (problems, info)"""
+    import sys
+    import reactivex as rx
+    from reactivex.scheduler import VirtualTimeScheduler
+    from reactivex.notification import OnNext, OnError, OnCompleted
+    from reactivex.testing.coldobservable import ColdObservable
+    from reactivex.testing.recorded import Recorded
+    rng = random.Random(case_seed)
+    mod = {"C05": C05, "C06": C06}[table]
+    with raising_tables():
+        pool, T = mod.ops_table()
+        inst = T[name](rng)
+    ipool = inst.get("pool", pool)
+    n = rng.choice([0, 1, 2, 2, 3, 3, 4, 5, 6])
+    xs = [rng.choice(ipool.values) for _ in range(n)]
+    term = "C" if (kind == "from_iterable" or rng.random() < 0.7) else "E"
+    sched = VirtualTimeScheduler()
+    cold = None
+    if kind == "from_iterable":
+        src = rx.from_iterable(xs, scheduler=sched)
+    else:
+        msgs = [Recorded(10.0 * (i + 1), OnNext(x)) for i, x in enumerate(xs)]
+        msgs.append(Recorded(10.0 * (n + 1), OnCompleted() if term == "C" else OnError(k2.UserError(11))))
+        cold = src = ColdObservable(sched, msgs)
+    out, escapes, calls_at_error = [], [], []
+    k2.CURRENT_TAG[0] = 0
+    del k2.RAISED[:]
+    del k2.CALLS[:]
+
+    def on_error(e):
+        out.append(("E", e))
+        calls_at_error.append(len(k2.CALLS))
+    try:
+        src.pipe(inst["py"]).subscribe(lambda v: out.append(("N", v)), on_error, lambda: out.append(("C", None)),
+                                       scheduler=sched)
+    except Exception as e:
+        escapes.append(("subscribe()", e))
+    try:
+        sched.start()
+    except Exception as e:
+        escapes.append(("scheduler.start()", e))
+    raised = [r for r in k2.RAISED if r[1] >= 20]
+    kinds = "".join(k for k, _ in out)
+    probs = []
+    for where, e in escapes:
+        probs.append(("escaped", f"{e!r} came out of {where}"))
+    if any(c in "EC" for c in kinds[:-1]):
+        probs.append(("grammar", f"subscriber received {kinds}"))
+    if raised:
+        code = raised[0][1]
+        last = out[-1] if out else None
+        if not (last and last[0] == "E" and k2.err_id(last[1]) == code):
+            probs.append(("not-delivered", f"a callback raised user-error-{code}; the subscriber's last notification is "
+                                           f"{(last[0], repr(last[1])) if last else None}"))
+        if len(raised) > 1:
+            probs.append(("raised-again", f"user callbacks raised {len(raised)} times: {raised}"))
+        if calls_at_error and calls_at_error[0] != len(k2.CALLS):
+            probs.append(("callback-after-failure", f"{len(k2.CALLS) - calls_at_error[0]} callback invocation(s) after "
+                                                    f"the error was delivered"))
+        if cold is not None and cold.subscriptions and cold.subscriptions[0].unsubscribe == sys.maxsize:
+            probs.append(("not-released", "the cold source's subscription was never disposed"))
+    info = {"raised": bool(raised), "n": n, "coq": inst["coq"], "xs": [repr(x) for x in xs], "term": term,
+            "out": [(k, repr(v)) for k, v in out]}
+    return probs, info
+
+
+def cold_scheduled(chk):
+    ncase = 10 if chk.tier == "quick" else 150
+    nontrivial = set()
+    cov = {"cases": 0, "callback_raised": 0, "per_source_kind": {k: 0 for k in COLD_KINDS}}
+    for table, mod in (("C05", C05), ("C06", C06)):
+        pool, T = mod.ops_table()
+        for name in T:
+            if name not in CALLBACK_OPS:
+                continue
+            for kind in COLD_KINDS:
+                for ci in range(ncase):
+                    seed = chk.rng.getrandbits(48)
+                    probs, info = cold_case(table, name, kind, seed)
+                    chk.cov["evaluations"] += 1
+                    cov["cases"] += 1
+                    cov["per_source_kind"][kind] += 1
+                    cov["callback_raised"] += info["raised"]
+                    if probs:
+                        chk.violation(f"cold|{name}|{kind}|{probs[0][0]}",
+                                      {"cold_case": {"table": table, "operator": name, "source": kind,
+                                                     "case_seed": seed},
+                                       "instance": info["coq"], "source elements": info["xs"],
+                                       "source terminal": info["term"], "subscriber": info["out"],
+                                       "what": [t for _, t in probs]}, size=info["n"])
+                    elif info["raised"] and info["n"] >= 2:
+                        nontrivial.add((table, name, kind, seed))
+    return nontrivial, cov
 
 
 def run(chk):
@@ -125,8 +240,9 @@ def run(chk):
                 return f"a user callback ran again after the failure: {raised}"
         return None
     before = chk.cov["distinct_nontrivial"] if isinstance(chk.cov.get("distinct_nontrivial"), int) else 0
-    comb_table.run_ops(chk, "C09", ["flat_map", "flat_map_indexed", "concat_map", "merge_mc", "switch_map",
-                                    "flat_map_latest", "while_do", "do_while", "catch_handler"], oracle_multi,
+    comb_table.run_ops(chk, "C09", ["flat_map", "flat_map_indexed", "merge_all", "concat_map", "merge_mc", "switch_map",
+                                    "switch_map_indexed", "flat_map_latest", "switch_latest", "while_do", "do_while",
+                                    "catch_handler"], oracle_multi,
                        ncase=(25 if chk.tier == "quick" else 300))
     multi_nt = chk.cov["distinct_nontrivial"]
     multi_dist = chk.cov.get("input_distribution")
@@ -136,10 +252,20 @@ def run(chk):
                        "33-40% of the values x seeded hot inputs (20% non-conforming); non-trivial = distinct "
                        "(instance, input) in which a callback actually raised and the oracle held")
     chk.cov["input_distribution"] = {"per_operator": per_op, "runs": raised_hist}
-    chk.cov["rule"] += ("; plus the callback operators of the multi-source tables (flat_map, concat_map, "
-                        "merge(max_concurrent), switch_map, flat_map_latest, while_do, do_while, catch(handler)) with "
-                        "the same oracle")
+    chk.cov["rule"] += ("; plus the callback operators of the multi-source tables (flat_map, flat_map_indexed, "
+                        "map+merge_all, concat_map, merge(max_concurrent), switch_map, switch_map_indexed, "
+                        "flat_map_latest, map+switch_latest, while_do, do_while, catch(handler)) with the same oracle")
     chk.add_samples([{"case": c[0], "output": c[1]} for cs in gal.values() for c in cs[:1]][:5])
+    # ---- ORACLE-ONLY: the same callback operators over COLD sources driven by a virtual-time scheduler
+    cold_nt, cold_cov = cold_scheduled(chk)
+    chk.cov["distinct_nontrivial"] += len(cold_nt)
+    chk.cov["cold_sources_on_virtual_time_scheduler"] = cold_cov
+    chk.cov["rule"] += ("; plus (oracle only) every callback operator of the C05/C06 tables over two kinds of COLD source "
+                        "on a VirtualTimeScheduler -- rx.from_iterable(xs, scheduler) (its loop catches) and the "
+                        "library's cold test observable (one scheduled action per notification, nothing caught) -- "
+                        "with scheduler.start() wrapped: nothing may come out of subscribe() or start(); if a callback "
+                        "raised, the subscriber's last notification is that on_error, no callback raises or runs "
+                        "afterwards, the grammar holds and the cold test observable's subscription is disposed")
     # ---- ORACLE-ONLY family: callback operators that no table covers (join, group_join, expand, starmap, pluck,
     # partition_indexed, do_action/tap/do, zip_with_iterable, key mappers / comparers of the aggregates, cold
     # factories under flat_map), hand-driven hot sources, exception injected at the k-th invocation of one callback
@@ -162,5 +288,14 @@ def replay(chk, path):
     if "rest_case" in d:
         import c09_rest
         return c09_rest.replay_case(chk, d, path)
+    if "cold_case" in d:
+        c = d["cold_case"]
+        probs, info = cold_case(c["table"], c["operator"], c["source"], c["case_seed"])
+        print(json.dumps({"cold_case": c, **info, "oracle": [f"{s}: {t}" for s, t in probs] or "holds"},
+                         indent=1, default=repr))
+        if probs:
+            print(f"VIOLATION property=C09 replay={path}")
+            return 1
+        return 0
     print(open(path).read())
     return 1
